@@ -24,7 +24,8 @@ LIBS := -lPocoNet -lPocoUtil -lPocoFoundation -lz -lpthread
 WRAPS := pthread_create pthread_join pthread_spin_lock pthread_spin_trylock pthread_spin_unlock \
  pthread_mutex_lock pthread_mutex_trylock pthread_mutex_unlock sched_yield pthread_yield \
  clock_gettime clock_nanosleep nanosleep _ZNSt6chrono3_V212system_clock3nowEv \
- open open64 read write lseek lseek64 close access rename mkdir unlink
+ open open64 read write lseek lseek64 close access rename mkdir unlink \
+ ftruncate ftruncate64 fsync fdatasync pread pread64 pwrite pwrite64 fstat fstat64 stat stat64
 comma := ,
 empty :=
 space := $(empty) $(empty)
